@@ -12,7 +12,13 @@
                                    1 = the model's writer prints the record it read exactly as that line;
                                    w = contents of the Word(None) tokens; n = the texts of the Number values
      Q bytes|bytes|…            -> the lines as a log through the model's read + summarize over the modelled records:
-                                   "ERR" | "T=n K=k:n,… C=key cps.cps=v;… W=cps.cps:n,…" (v: 0 false, 1 true, 2 null) *)
+                                   "ERR" | "T=n K=k:n,… C=key cps.cps=v;… W=cps.cps:n,…" (v: 0 false, 1 true, 2 null)
+     B cap|l l l …              -> BufWriter of that capacity fed fragments of those lengths (write_all each, then flush):
+                                   the lengths of the chunks handed to the inner writer (one write(2) each)
+     C cap|o bytes|a bytes|…|b bytes|…|f l l …|g l l …|s 1 0 …   two concurrent save_stats sessions onto the log `o`:
+                                   a / b = the serialised records of process A / B, f / g = the fragment lengths Stats::write
+                                   produced for them, s = whose write(2) comes next (1 = A)
+                                   -> "<file>|N" (Stats::read rejects the log) | "<file>|n w" (n records; w = 1: old,A,B  2: old,B,A  0: other) *)
 let field_body s = if String.length s <= 1 then "" else String.sub s 1 (String.length s - 1)
 let bytes_line (bs : n list) : string = line_of_text bs
 let digest (bs : n list) : string =
@@ -106,4 +112,30 @@ let () =
                (String.concat "," (List.map (fun (k, c) -> Printf.sprintf "%d:%d" k c) ks))
                (String.concat ";" cfg)
                (String.concat "," (List.map (fun (w, c) -> Printf.sprintf "%s:%d" w c) ws)))
+    | 'B' ->
+        (match split_on '|' body with
+         | cap :: lens :: _ ->
+             let ls = List.map nat_of_int (ints_of_line lens) in
+             let cs = run_bufwriter_lens (nat_of_int (int_of_string cap)) ls in
+             print_endline (String.concat " " (List.map (fun c -> string_of_int (int_of_nat c)) cs))
+         | _ -> print_endline "?")
+    | 'C' ->
+        (match split_on '|' body with
+         | cap :: rest ->
+             let start = ref [] and la = ref [] and lb = ref [] and fa = ref [] and fb = ref [] and sc = ref [] in
+             List.iter (fun f ->
+               if String.length f = 0 then () else
+               match f.[0] with
+               | 'o' -> start := text_of_line (field_body f)
+               | 'a' -> la := text_of_line (field_body f) :: !la
+               | 'b' -> lb := text_of_line (field_body f) :: !lb
+               | 'f' -> fa := List.map nat_of_int (ints_of_line (field_body f))
+               | 'g' -> fb := List.map nat_of_int (ints_of_line (field_body f))
+               | 's' -> sc := List.map (fun i -> i <> 0) (ints_of_line (field_body f))
+               | _ -> ()) rest;
+             let (file, res) = run_concurrent (nat_of_int (int_of_string cap)) !start (List.rev !la) (List.rev !lb) !fa !fb !sc in
+             (match res with
+              | None -> print_endline (digest file ^ "|N")
+              | Some (n, w) -> Printf.printf "%s|%d %d\n" (digest file) (int_of_nat n) (int_of_nat w))
+         | [] -> print_endline "?")
     | _ -> print_endline "?")
